@@ -64,8 +64,10 @@ def run(res, proof):
     base_cx = [h for h in cx if type(iw.held[h]).__name__ == 'ComplexS']
     macros = []
     for sub in [(0,), (1,), (0, 1), (1, 2), (0, 1, 2), (3, 4), (2, 5)]:
-        for cls in (0, 1):
-            h = add('mk.macro\t%d\t-\t%s' % (cls, ' '.join('h%d' % base_cx[i] for i in sub)))
+        for cls in (0, 1, 3):
+            # the same member set in every registry, each time named after another member (another representative)
+            nm = iw.held[base_cx[sub[cls % len(sub)]]].name if cls else '-'
+            h = add('mk.macro\t%d\t%s\t%s' % (cls, nm, ' '.join('h%d' % base_cx[i] for i in sub)))
             if h is not None: macros.append(h)
     rxns = []
     for (r, p) in [((0, 1), (2,)), ((1, 0), (3,)), ((0,), (1,)), ((0, 0), (2,)), ((2,), (0, 1))]:
